@@ -32,6 +32,9 @@
  *     insound pN <id> <samples> [k=v..]  upipe_input of a sound buffer (one plane "lr", 4 octets
  *                              per sample)
  *     intick pN <id> [k=v..]   upipe_input of a buffer-less uref (reference "clock" inputs)
+ *     provall sN               sink sN answers every request registered with it
+ *     subfx pN pM <def> [k=v..]  flow-allocate a sub pipe with a built flow definition (keys as setfdx,
+ *                              plus pid, psi_filter=<filter hex>:<mask hex>)
  *     contin pN                upipe_videocont_sub_set_input / upipe_audiocont_sub_set_input
  *     arm pN sM|off            the probe of pN answers the next need_output by
  *                              upipe_set_output(pN, sM) (once); prints
@@ -64,6 +67,7 @@
 #include "upipe/ubuf_pic_mem.h"
 #include "upipe/ubuf_sound.h"
 #include "upipe/ubuf_sound_mem.h"
+#include "upipe/ubuf_mem.h"
 #include "upipe/uref_pic.h"
 #include "upipe/uref_sound.h"
 #include "upipe/uref_attr.h"
@@ -411,6 +415,14 @@ bool pd_option_a(struct upipe *upipe, const struct pipe_type *type, bool set,
 {
     const char *t = type ? type->name : "";
     int err;
+#ifdef C04_WITH_TS
+    if (!strcmp(t, "ts_pid_filter") && (!strcmp(name, "add_pid") || !strcmp(name, "del_pid"))) {
+        err = !set ? UBASE_ERR_UNHANDLED : !strcmp(name, "add_pid") ? upipe_ts_pidf_add_pid(upipe, atoi(value))
+                                                                    : upipe_ts_pidf_del_pid(upipe, atoi(value));
+        printf("ret %d\n", err);
+        return true;
+    }
+#endif
     if (!strcmp(t, "buffer") && !strcmp(name, "max_size")) {
         if (set) err = upipe_buffer_set_max_size(upipe, strtoull(value, NULL, 10));
         else { uint64_t v = 777777; err = upipe_buffer_get_max_size(upipe, &v); if (ubase_check(err)) { printf("ret 0 %" PRIu64 "\n", v); return true; } }
@@ -528,6 +540,20 @@ static struct uref *build_fd(int nt, char **tok, int from)
             if (n >= 3) { uref_pic_flow_add_plane(fd, 2, 2, 1, "u8"); uref_pic_flow_add_plane(fd, 2, 2, 1, "v8"); }
         }
         else if (!strcmp(k, "pes_id")) uref_ts_flow_set_pes_id(fd, (uint8_t)n);
+        else if (!strcmp(k, "pid")) uref_ts_flow_set_pid(fd, n);
+        else if (!strcmp(k, "psi_filter")) {
+            /* <filter hex>:<mask hex> */
+            uint8_t f[16], m[16];
+            size_t sz = 0;
+            const char *col = strchr(v, ':');
+            for (; col != NULL && sz < 16 && v + 2 * sz < col; sz++) {
+                unsigned a = 0, b = 0;
+                sscanf(v + 2 * sz, "%2x", &a);
+                sscanf(col + 1 + 2 * sz, "%2x", &b);
+                f[sz] = (uint8_t)a; m[sz] = (uint8_t)b;
+            }
+            uref_ts_flow_set_psi_filter(fd, f, m, sz);
+        }
         else if (!strcmp(k, "duration")) uref_clock_set_duration(fd, n);
         else if (!strcmp(k, "latency")) uref_clock_set_latency(fd, n);
         else if (!strcmp(k, "tag")) uref_attr_set_string(fd, v, UDICT_TYPE_STRING, "x.tag");
@@ -647,6 +673,31 @@ static bool av_cmd(int nt, char **tok)
         ret(0);
         return true;
     }
+    if (!strcmp(c, "provall") && nt >= 2) {
+        /* the sink answers every request registered with it, in registration order (buffer managers
+         * are built from the flow format of the request: block, picture or sound) */
+        struct vsink *sk = find_sink(tok[1]);
+        if (sk == NULL) { ret(-1); return true; }
+        struct urequest *snap[16];
+        int n = sk->nregs, done = 0;
+        memcpy(snap, sk->regs, sizeof(snap));
+        for (int i = 0; i < n && i < 16; i++) {
+            bool still = false;
+            for (int j = 0; j < sk->nregs; j++) if (sk->regs[j] == snap[i]) still = true;
+            if (!still) continue;
+            struct urequest *r = snap[i];
+            printf("provide %s %s type=%d\n", sk->name, req_name(r), r->type);
+            if (r->type == UREQUEST_UBUF_MGR && r->uref != NULL) {
+                struct ubuf_mgr *m = ubuf_mem_mgr_alloc_from_flow_def(0, 0, g_umem, r->uref);
+                if (m != NULL) { urequest_provide_ubuf_mgr(r, m, uref_dup(r->uref)); done++; continue; }
+            }
+            if (r->type == UREQUEST_UCLOCK) { urequest_provide_uclock(r, uclock_use(vclock_get())); done++; continue; }
+            provide(r, sk->name);
+            done++;
+        }
+        printf("ret 0 %d\n", done);
+        return true;
+    }
     if (!strcmp(c, "contin") && nt >= 2) {
         struct upipe *up = find_any(tok[1]);
         if (!up) { ret(-1); return true; }
@@ -746,7 +797,7 @@ bool pd_ext_a(int nt, char **tok)
         printf("ret %u\n", vloop_advance(loop(), strtoull(tok[1], NULL, 10), 64));
         return true;
     }
-    if ((!strcmp(c, "subf") && nt >= 4) || (!strcmp(c, "subin") && nt >= 3)) {
+    if ((!strcmp(c, "subf") && nt >= 4) || (!strcmp(c, "subfx") && nt >= 4) || (!strcmp(c, "subin") && nt >= 3)) {
         struct obj *sup = find_pipe(tok[2]);
         if (!sup || !sup->upipe) { ret(-1); return true; }
         struct obj *o = new_slot(tok[1]);
@@ -757,8 +808,8 @@ bool pd_ext_a(int nt, char **tok)
         o->ptr = (struct upipe *)-1;
         registry_pending = o->name;
         struct upipe *up;
-        if (!strcmp(c, "subf")) {
-            struct uref *fd = make_fd(tok[3]);
+        if (!strcmp(c, "subf") || !strcmp(c, "subfx")) {
+            struct uref *fd = !strcmp(c, "subfx") ? build_fd(nt, tok, 3) : make_fd(tok[3]);
             up = upipe_flow_alloc_sub(sup->upipe, &o->probe, fd);
             uref_free(fd);
         } else
